@@ -378,3 +378,55 @@ def unit_base_computer(prop="C02"):
         return u
     unit.__name__ = "base_computer"
     return unit
+
+
+# ------------------------------------------------------------------------------------------
+# The summand of the per-frame routine: `_compute_frame` is proved with `self._nonlin_op(v)` read as  sum_k |v_k|^p  (p = 2 iff
+# self._power). That reading rests on three small facts, each an obligation here (AST level: the bodies are one expression each):
+#   the constructor stores use_power as self._power and selects `_power` when it is set and `_mag` otherwise, by exactly one if / else;
+#   `_power(x)` is  numpy.linalg.norm(x, ord=2) ** 2  (A-NP-RED: the 2-norm is the root of the sum of squared moduli);
+#   `_mag(x)`   is  numpy.sum(numpy.abs(x)).
+# ------------------------------------------------------------------------------------------
+def unit_nonlin(prop="C02"):
+    def unit(tier, known):
+        from pyvc import extract
+        from pyvc.check import UnitResult
+        from pyvc.symex import Obligation
+        u = UnitResult("nonlinearity")
+        u.to_case, u.replay_module = to_case, "rtc.c02"
+        u.assumptions |= {"A-PYSEM", "A-NP-RED"}
+
+        def ob(label, ok, line=None):
+            u.obligations.append(Obligation(f"{prop}.nonlinearity.{label}", [], z3.BoolVal(bool(ok)), "dataflow", line))
+        for name, want in (("_power", ("np.linalg.norm(x, ord=2) ** 2", "np.linalg.norm(x, 2) ** 2", "np.linalg.norm(x) ** 2")),
+                           ("_mag", ("np.sum(np.abs(x))", "np.abs(x).sum()"))):
+            try:
+                fx = extract.get_function("compute", name)
+            except KeyError as e:
+                u.outside.append((f"compute:{name}", str(e)))
+                continue
+            u.functions.append(fx.describe())
+            body = [s for s in fx.node.body if not (isinstance(s, ast.Expr) and isinstance(s.value, ast.Constant))]
+            params = [a.arg for a in fx.node.args.args]
+            ok = len(body) == 1 and isinstance(body[0], ast.Return) and params == ["x"] and ast.unparse(body[0].value) in want
+            ob(f"{name}_is_{'the_squared_2_norm' if name == '_power' else 'the_sum_of_moduli'}", ok, fx.lineno)
+        try:
+            init = extract.get_function("compute", "ShortTimeFourierTransformFrameComputer.__init__")
+        except KeyError as e:
+            u.outside.append(("compute:STFT.__init__", str(e)))
+            return u
+        d = init.describe()
+        d["function"] += "#selection of the summand (AST level)"
+        u.functions.append(d)
+        stores = [s for s in ast.walk(init.node) if isinstance(s, ast.Assign) and any(ast.unparse(t) == "self._nonlin_op" for t in s.targets)]
+        sel = [s for s in ast.walk(init.node) if isinstance(s, ast.If) and ast.unparse(s.test) == "self._power"
+               and len(s.body) == 1 and len(s.orelse) == 1 and ast.unparse(s.body[0]) == "self._nonlin_op = _power" and ast.unparse(s.orelse[0]) == "self._nonlin_op = _mag"]
+        ob("summand_is_power_iff_use_power_else_magnitude", len(sel) == 1 and len(stores) == 2, init.lineno)
+        pw = [s for s in ast.walk(init.node) if isinstance(s, ast.Assign) and any(ast.unparse(t) == "self._power" for t in s.targets)]
+        ob("power_flag_is_the_use_power_argument", len(pw) == 1 and ast.unparse(pw[0].value) in ("use_power", "bool(use_power)"), init.lineno)
+        # ... and the flag is stored before the selection reads it
+        if len(pw) == 1 and len(sel) == 1:
+            ob("flag_stored_before_the_selection", pw[0].lineno < sel[0].lineno, init.lineno)
+        return u
+    unit.__name__ = "nonlinearity"
+    return unit
